@@ -58,11 +58,83 @@ def judge(case, mo, io, cfg):
 STRERR = re.compile(r"err=([456])\b.*")
 
 
+_HEX4 = re.compile(rb"[0-9a-fA-F]{4}")
+
+
+def first_malformed_literal(text):
+    """offset of the opening quote of the first string literal that is malformed (control byte, bad escape, bad \\u, unpaired surrogate,
+    unterminated), scanning quotes from the start of the text; None if every literal is well-formed"""
+    i, n = 0, len(text)
+    while i < n:
+        if text[i] != 0x22:
+            i += 1
+            continue
+        start = i
+        i += 1
+        pending_high = False
+        while True:
+            if i >= n:
+                return start                      # unterminated
+            c = text[i]
+            if c == 0x22:
+                if pending_high:
+                    return start
+                i += 1
+                break
+            if c < 0x20:
+                return start
+            if c != 0x5C:
+                if pending_high:
+                    return start
+                i += 1
+                continue
+            if i + 1 >= n:
+                return start
+            e = text[i + 1]
+            if e == 0x75:
+                h = text[i + 2:i + 6]
+                if len(h) < 4 or not _HEX4.fullmatch(h):
+                    return start
+                cp = int(h, 16)
+                if 0xDC00 <= cp <= 0xDFFF:
+                    if not pending_high:
+                        return start
+                    pending_high = False
+                else:
+                    if pending_high:
+                        return start
+                    pending_high = 0xD800 <= cp <= 0xDBFF
+                i += 6
+            elif e in b'"\\/bfnrt':
+                if pending_high:
+                    return start
+                i += 2
+            else:
+                return start
+    return None
+
+
+_ERROFF = re.compile(r"^err=(\d+) off=(\d+)\b")
+
+
 def digest(case, line):
     cmd = case["lines"][0].split()[0]
     if "CRASH" in line:
         return "CRASH"
     if cmd in ("parse", "ondemand", "pod"):
+        # the property's own exemption: inside a malformed string literal the reported code and offset may differ between the
+        # configurations (faults are detected per vector block) - the decision to reject may not
+        m = _ERROFF.match(line)
+        if m and m.group(1) != "0":
+            toks = case["lines"][0].split()
+            try:
+                text = bytes.fromhex(toks[2]) if len(toks) > 2 and toks[2] != "-" else b""
+            except ValueError:
+                text = None
+            if text is not None:
+                fm = first_malformed_literal(text)
+                if fm is not None and int(m.group(2)) >= fm:
+                    return "err=in-malformed-string"
         return STRERR.sub("err=string", line)
     if cmd == "parsestr":
         if line.startswith("ok "):
